@@ -76,7 +76,7 @@ class JsonTerm(twin.Mapping):
 
 
 def all_values():
-    return twin.ADV_STRS + twin.ADV_INTS + twin.ADV_NUMS + twin.ADV_JSON + twin.FIXED_VALUES
+    return twin.ADV_STRS + twin.ADV_INTS + twin.ADV_NUMS + twin.ADV_JSON + twin.FIXED_VALUES + twin.STR_ENUM_VALUES
 
 
 def cases(run, rng):
